@@ -6,6 +6,7 @@ import WK.Proofs.C07_Ref7
 import WK.Proofs.C07_Ref8
 import WK.Proofs.C07_Ref9
 import WK.Proofs.C07_Ref10
+import WK.Proofs.C07_Phys
 /-
   C07 — theorems about the executable store model (`WK.C07.step`, the function the
   driver runs against the real store).
@@ -650,5 +651,84 @@ theorem c07_refines_trim_partial (st : Store) (c t mm mb : Nat) (hi : Inv st) (h
 example : Refines Store.init (.trim 1 3 2 0) :=
   c07_refines_trim_partial _ _ _ _ _ inv_init (by intro c r hr; rw [init_chan] at hr; cases hr) (by decide)
     (by rw [init_chan]; exact Nat.le_refl _)
+
+/-! ### refinement, round 6: `trim` folded into the run theorem (`physical ≤ logical` derived, not assumed) -/
+
+/-- the constructors covered after round 6: everything except `bycmn` and `lss` -/
+def Covered3 : Op → Prop
+  | .bycmn .. | .lss .. => False
+  | _ => True
+
+/-- **c07_refines_step_partial3**: one step of any constructor except `bycmn`/`lss` — now including
+    `TrimPrefixThrough(Limit)` — refines the reference log, and the extra invariant `PhysAll` (every channel's
+    stored retention state has physical ≤ logical, what `validateRetentionState` checks) is preserved, so the
+    hypothesis `PhysLeLoc` of `c07_refines_trim_partial` is available again at the next step. -/
+theorem c07_refines_step_partial3 (st : Store) (op : Op) (hi : Inv st) (hk : Chk st) (hs : Safe st op) (hc : Covered3 op)
+    (hp : PhysAll st) : Refines st op ∧ PhysAll (step st op).1 := by
+  have R : Refines st op := by
+    cases op with
+    | trim c t mm mb => exact refines_trim st c t mm mb hi hk hs (hp c)
+    | bycmn _ _ _ _ => exact absurd hc (by simp [Covered3])
+    | lss _ _ _ => exact absurd hc (by simp [Covered3])
+    | _ => exact c07_refines_step_partial2 st _ hi hk hs trivial
+  refine ⟨R, ?_⟩
+  rw [← sphys_abs, R.1]
+  exact specStep_sphys _ _ ((sphys_abs st).mpr hp)
+
+/-- **c07_physle_init**: the empty store satisfies `PhysAll`. -/
+theorem c07_physle_init : PhysAll Store.init := physAll_init
+
+/-- **c07_refines_run_partial3**: for every operation list without `bycmn`/`lss` that respects the contracts — appends
+    in all modes, follower applies, truncations, PREFIX TRIMS (bounded or not), checkpoint stores, closes, reopens,
+    reads and lookups — abstracting the model run equals running the reference log, `Inv`, `Chk` and `PhysAll` hold
+    at the end, and the outputs agree at every position. -/
+theorem c07_refines_run_partial3 (ops : List Op) (st : Store) (hi : Inv st) (hk : Chk st) (hp : PhysAll st)
+    (hs : SafeRun st ops) (hc : ∀ op ∈ ops, Covered3 op) :
+    abs (run st ops) = specRun (abs st) ops ∧ Inv (run st ops) ∧ Chk (run st ops) ∧ PhysAll (run st ops) ∧
+    ∀ (pre : List Op) (op : Op) (post : List Op), ops = pre ++ op :: post →
+      (step (run st pre) op).2 = (specStep (specRun (abs st) pre) op).2 := by
+  induction ops generalizing st with
+  | nil => exact ⟨rfl, hi, hk, hp, fun pre op post h => by cases pre <;> cases h⟩
+  | cons o rest ih =>
+    obtain ⟨R, P1⟩ := c07_refines_step_partial3 st o hi hk hs.1 (hc o List.mem_cons_self) hp
+    have I1 := inv_step st o hi hs.1
+    obtain ⟨a, b, c, p, d⟩ := ih (step st o).1 I1 R.2.2 P1 hs.2 (fun op h => hc op (List.mem_cons_of_mem _ h))
+    refine ⟨?_, b, c, p, ?_⟩
+    · show abs (run (step st o).1 rest) = specRun (specStep (abs st) o).1 rest
+      rw [a, R.1]
+    · intro pre op post h
+      cases pre with
+      | nil =>
+        simp only [List.nil_append, List.cons.injEq] at h
+        obtain ⟨e, _⟩ := h
+        subst e
+        exact R.2.1
+      | cons p pre' =>
+        simp only [List.cons_append, List.cons.injEq] at h
+        obtain ⟨e, h'⟩ := h
+        subst e
+        have := d pre' op post h'
+        show (step (run (step st o).1 pre') op).2 = (specStep (specRun (specStep (abs st) o).1 pre') op).2
+        rw [← R.1]; exact this
+
+/-- **c07_refines_run_init**: from the EMPTY store no invariant has to be assumed: every contract-respecting history
+    without `bycmn`/`lss` is answered position by position exactly as the reference sequential log answers it. -/
+theorem c07_refines_run_init (ops : List Op) (hs : SafeRun Store.init ops) (hc : ∀ op ∈ ops, Covered3 op) :
+    abs (run Store.init ops) = specRun (abs Store.init) ops ∧
+    ∀ (pre : List Op) (op : Op) (post : List Op), ops = pre ++ op :: post →
+      (step (run Store.init pre) op).2 = (specStep (specRun (abs Store.init) pre) op).2 := by
+  obtain ⟨a, _, _, _, d⟩ := c07_refines_run_partial3 ops Store.init inv_init
+    (by intro c r hr; rw [init_chan] at hr; cases hr) physAll_init hs hc
+  exact ⟨a, d⟩
+
+/-- non-vacuity: a history with an append, a bounded trim and a second trim meets every hypothesis -/
+example : SafeRun Store.init [.app 0 0 0 [⟨5, [1], [2], [3], 4⟩], .trim 0 1 1 0, .trim 0 3 0 0] ∧
+    (∀ op ∈ [Op.app 0 0 0 [⟨5, [1], [2], [3], 4⟩], .trim 0 1 1 0, .trim 0 3 0 0], Covered3 op) := by
+  refine ⟨⟨⟨by decide, fun h => absurd rfl h, fun h => by cases h⟩, (by show 0 < numChan; decide), (by show 0 < numChan; decide), trivial⟩, ?_⟩
+  intro op h
+  simp only [List.mem_cons, List.not_mem_nil, or_false] at h
+  rcases h with e | e | e <;> subst e <;> trivial
+
+example : Covered3 (.trim 0 1 0 0) ∧ ¬ Covered3 (.lss 0 [1] 1) := ⟨trivial, fun h => h⟩
 
 end WK.C07
